@@ -235,3 +235,165 @@ PROPS["C14"] = dict(
     assumptions=[CHK_ASSUMPTION, "the reference key function written in the harness is the definition of "
                  "game-theoretic preference"],
 )
+
+
+# ----------------------------------------------------------------------------- mon-tables / sanitizer flavours
+
+HARNESS = os.path.join(os.path.dirname(os.path.dirname(os.path.abspath(__file__))), "harness")
+
+
+def bin_job(prop, pkg, fl, dirpath, ctx, idx, total, extra=None, name=None, wrapper=None, env=None):
+    argv = (wrapper or []) + [os.path.join(dirpath, pkg), prop, "--tier", ctx["tier"], "--seed", str(ctx["seed"]),
+                              "--shard", str(idx), "--nshards", str(total), "--scale", str(ctx["scale"]),
+                              "--out", "{out}", "--journal", "{journal}"] + (extra or [])
+    return dict(name=name or f"{prop}-{fl}-{idx}", argv=argv, flavour=fl, env=env or {})
+
+
+def miri_jobs(prop, pkg, ctx, shards, extra=None, release=True, miriflags=""):
+    """Shards interpreted by Miri (release profile: the unchecked fast paths are what is interpreted)."""
+    tdir = os.path.join(ctx["TARGET"], "miri")
+    env = dict(MIRIFLAGS=("-Zmiri-disable-isolation " + miriflags).strip(), CARGO_NET_OFFLINE="true", RUSTFLAGS="")
+    base = ["cargo", "+nightly", "miri", "run", "--offline", "-q", "-p", pkg, "--target-dir", tdir] + (["--release"] if release else [])
+    # warm-up build (serial) so that the parallel shards do not fight over the build lock
+    e = dict(os.environ); e.update(env)
+    r = subprocess.run(base + ["--", "noop"], cwd=HARNESS, env=e, stdout=subprocess.PIPE, stderr=subprocess.STDOUT, text=True)
+    if "error: could not compile" in r.stdout or "error[E" in r.stdout:
+        raise RuntimeError("miri build failed:\n" + r.stdout[-3000:])
+    jobs = []
+    fl = "miri" if release else "miri-dev"
+    for i in range(shards):
+        argv = base + ["--", prop, "--tier", ctx["tier"], "--seed", str(ctx["seed"]), "--shard", str(i), "--nshards", str(shards),
+                       "--small", "--out", "{out}", "--journal", "{journal}"] + (extra or [])
+        jobs.append(dict(name=f"{prop}-{fl}-{i}", argv=argv, flavour=fl, env=env, cwd=HARNESS))
+    return jobs
+
+
+ASAN_ENV = dict(ASAN_OPTIONS="halt_on_error=1:abort_on_error=1:detect_leaks=0:symbolize=1")
+
+
+def tables_jobs(prop, ctx, quick=("chk", "ship"), shards_per=8, thorough_extra=("asan", "miri"), miri_shards=16, vg=False):
+    jobs = []
+    flavours = list(quick)
+    # every flavour enumerates the whole domain on its own (shards are per flavour)
+    for fl in flavours:
+        d = ctx["build"](fl, "mon-tables")
+        for idx in range(shards_per):
+            jobs.append(bin_job(prop, "mon-tables", fl, d, ctx, idx, shards_per))
+    if ctx["tier"] == "thorough":
+        if "asan" in thorough_extra:
+            d = ctx["build"]("asan", "mon-tables")
+            for i in range(8):
+                jobs.append(bin_job(prop, "mon-tables", "asan", d, ctx, i, 8, env=ASAN_ENV))
+        if "miri" in thorough_extra:
+            jobs += miri_jobs(prop, "mon-tables", ctx, miri_shards)
+        if vg:
+            d = ctx["build"]("ship", "mon-tables")
+            for i in range(4):
+                jobs.append(bin_job(prop, "mon-tables", "vg", d, ctx, i, 4, extra=["--small"],
+                                    wrapper=["valgrind", "--quiet", "--error-exitcode=97", "--tool=memcheck"]))
+    return jobs
+
+
+def tables_replay(prop):
+    def f(ctx):
+        d = ctx["build"]("chk", "mon-tables")
+        return subprocess.run([os.path.join(d, "mon-tables"), prop, "--replay", ctx["replay"]]).returncode
+    return f
+
+
+TABLES_MERGER = lambda ctx=None: None
+
+PROPS["C08"] = dict(
+    jobs=lambda ctx: tables_jobs("C08", ctx, quick=("chk", "ship", "generic"), shards_per=8),
+    replay=tables_replay("C08"),
+    exhaustive=True,
+    exhaustive_note=("complete over every subset of each square's own full rook rays (<= 2^14 per square) and bishop rays "
+                     "(<= 2^13), which determines the answer; independence from off-ray squares is sampled (5 paddings "
+                     "per subset + 200 off-ray-only + 3000 random occupancies per square and piece); every flavour "
+                     "(chk, ship, generic) enumerates the whole domain on its own"),
+    rule=("each evaluation = one rook_moves/bishop_moves lookup compared with an integer (file,rank) ray walker (up to and "
+          "including the first blocker); the index-in-range clause is decided by the bounds check / debug_assert of the "
+          "chk and generic flavours (thorough: ASan red zones and Miri on the masked-relevant-bit subsets); "
+          "distinct_nontrivial = distinct (piece, square, non-empty on-ray subset)"),
+    floor=dict(any={"rook-on-ray-subsets": 3 * 1048576, "bishop-on-ray-subsets": 3 * 71168, "off-ray-padding-lookups": 12000000,
+                    "random-occupancies": 900000}),
+    watchdog=dict(quick=600, thorough=7200),
+    assumptions=[CHK_ASSUMPTION, "oracle = square-by-square ray walk written in the harness (shares nothing with the "
+                 "repo's shift-based generator)"],
+)
+
+PROPS["C09"] = dict(
+    jobs=lambda ctx: tables_jobs("C09", ctx, shards_per=1, thorough_extra=("asan", "miri"), miri_shards=1),
+    replay=tables_replay("C09"),
+    exhaustive=True,
+    exhaustive_note="64 squares, 4096 ordered pairs, 2 colours, every occupancy of the <=4 relevant pawn squares x 3 paddings, all constants",
+    rule=("each evaluation = one table entry / constant / helper result compared with its definition computed from integer "
+          "(file,rank) arithmetic (no wrap-around by construction), and the same for the table generator's public "
+          "functions; distinct_nontrivial = distinct squares + ordered square pairs enumerated"),
+    floor=dict(any={"between": 4096, "line": 4096, "distance": 4096, "knight_moves": 64, "king_moves": 64,
+                    "pawn_quiets(occupancy)": 2000, "generator.between": 4096, "ADJACENT_FILES": 8}),
+    watchdog=dict(quick=300, thorough=3600),
+    assumptions=[CHK_ASSUMPTION, "definitions are the ones written in harness/mon-tables/src/c09.rs"],
+)
+
+PROPS["C16"] = dict(
+    jobs=lambda ctx: tables_jobs("C16", ctx, shards_per=8, thorough_extra=("miri",), miri_shards=8),
+    replay=tables_replay("C16"),
+    exhaustive=True,
+    exhaustive_note="all 20480 moves + absent move, all 2 x 65536 mate distances; raw scores at the extremes and 10^5 seeded",
+    rule=("each evaluation = one conversion round trip: ChessMove -> StableChessMove -> ChessMove, or "
+          "EvaluatedMove::new(optional move, score) read back with chess_move()/score(); distinct_nontrivial = distinct "
+          "moves round-tripped (exhaustive domains are dealt across flavours and shards)"),
+    floor=dict(any={"moves-round-tripped": 2 * 20480, "mate-distances-checked": 2 * 131072, "raw-scores-checked": 100000,
+                    "absent-move-checks": 10}),
+    watchdog=dict(quick=300, thorough=3600),
+    assumptions=[CHK_ASSUMPTION],
+)
+
+PROPS["C17"] = dict(
+    jobs=lambda ctx: tables_jobs("C17", ctx, shards_per=1, thorough_extra=("asan", "miri"), miri_shards=1),
+    replay=tables_replay("C17"),
+    exhaustive=True,
+    exhaustive_note="every node of the embedded book, i.e. every root-to-leaf line, walked depth-first with real board and model in lock-step",
+    rule=("each evaluation = one book node: its move (without promotion choice) must be legal in the model and accepted "
+          "by move_new on the board reached from Board::standard() along its path; every child handle is iterated "
+          "independently with a step cap and a depth cap; table reads are bounds-checked by debug_assert (chk), ASan "
+          "and Miri (thorough); distinct_nontrivial = distinct positions reached along book lines"),
+    floor=dict(any={"book-nodes": 20000, "book-leaves": 5000}),
+    watchdog=dict(quick=300, thorough=3600),
+    assumptions=[MODEL_ASSUMPTION, CHK_ASSUMPTION],
+)
+
+PROPS["C18"] = dict(
+    jobs=lambda ctx: tables_jobs("C18", ctx, quick=("chk", "ship", "generic"), shards_per=5, thorough_extra=("miri",), miri_shards=16),
+    replay=tables_replay("C18"),
+    rule=("each evaluation = one bitboard (or pair) on which every operation is compared with a [bool;64] set model: "
+          "constructors, membership, with/cleared/set/clear, | & ^ - ! and assign forms, Sub<Pos>, four shifts, "
+          "flip_ranks, count/any/none/all/some, pop, iteration order with size_hint at every step, nth(n) for n in 0..=70 "
+          "and huge n (value = skip(n).next(); remainder after Some), FromIterator, From<Option>; boards = empty, full, 64 "
+          "singletons, all 2016 pairs, files, ranks, diagonals, patterns, seeded boards of 7 densities; flavours chk "
+          "(BMI2 nth with overflow traps), generic (default nth), ship (BMI2 without traps); distinct_nontrivial = distinct boards"),
+    floor=dict(any={"two-square-boards": 3 * 2016, "special-boards": 92, "seeded-boards": 300000, "nth-checks": 3000000,
+                    "special-pairs": 3 * 8000}),
+    watchdog=dict(quick=600, thorough=7200),
+    assumptions=[CHK_ASSUMPTION, "complete for single- and two-square boards, files, ranks, empty, full; other boards sampled "
+                 "(every operation acts square-wise)", "the state of the iterator after nth returned None is not judged"],
+)
+
+PROPS["C19"] = dict(
+    jobs=lambda ctx: tables_jobs("C19", ctx, shards_per=8, thorough_extra=("miri",), miri_shards=16),
+    replay=tables_replay("C19"),
+    exhaustive=True,
+    exhaustive_note=("64 squares / 8 files / 8 ranks consistency, all 256 one-byte and 65536 two-byte strings through every "
+                     "parser, all 15^4 four-byte and 15^5 five-byte strings over {a,h,A,H,i,`,@,1,8,0,9,-,space,NUL,0xE1}, all "
+                     "4096 non-promotion moves in both spellings and cases, all op sequences up to length 6 over 9 iterator "
+                     "ops for the five double-ended enum iterators; longer strings / sequences seeded"),
+    rule=("each evaluation = one byte string through File/Rank/Piece/PromotionPiece/Pos/ChessMove parsers (bytes and FromStr "
+          "forms) compared with the intended language written directly in the harness, or one square/file/rank "
+          "consistency + text round-trip check, or one iterator op sequence run against a slice iterator; "
+          "distinct_nontrivial = distinct strings / squares / op sequences"),
+    floor=dict(any={"two-byte-strings": 2 * 65536, "one-byte-strings": 512, "four-byte-move-strings": 2 * 50625,
+                    "five-byte-move-strings": 2 * 759375, "move-text-round-trips": 2 * 4096, "iterator-op-sequences": 4000000}),
+    watchdog=dict(quick=600, thorough=7200),
+    assumptions=[CHK_ASSUMPTION],
+)
